@@ -157,6 +157,8 @@ def geff_harness(ctx, cfg):
     ctx.input("edge_cells", {k: [x for x in v.c.flat] for k, v in store.edge_cols.items()})
     ctx.input("edge_name_map", cfg.get("edge_name_map"))
     ctx.input("node_features", cfg.get("node_features"))
+    # recorded BEFORE the call so that a concrete instance of this path is judged by a self-contained oracle
+    ctx.input("expect_malformed", bool(malformed(store.ids, store.edges) or cfg.get("expect_missing_required", False)))
     install(store)
     exc = tr = None
     try:
@@ -274,7 +276,9 @@ def _concrete_columns(inp):
 
 def _eq(a, b):
     try:
-        return bool(np.array_equal(np.asarray(a, dtype=float), np.asarray(b, dtype=float)))
+        x, y = np.asarray(a, dtype=float), np.asarray(b, dtype=float)
+        # (floating-point rounding of text / array round trips is outside every claim: equal up to 1e-9 relative)
+        return x.shape == y.shape and bool(np.allclose(x, y, rtol=1e-9, atol=1e-12, equal_nan=True))
     except Exception:
         return a == b
 
@@ -322,6 +326,9 @@ def geff_replay(f):
 def _judge(inp, ob, cols, ecols, ids, edges, tr, exc):
     detail = f"ids={ids} edges={edges} name_map={inp['name_map']} columns=" \
              f"{ {k: v.tolist() for k, v in cols.items()} } -> exc={exc!r}"
+    em = inp.get("expect_malformed")
+    if em is not None and em != (ob == "C12.malformed_source_rejected_with_ValueError"):
+        return False, "obligation does not apply: the source is " + ("malformed" if em else "well-formed")
     if ob == "C12.malformed_source_rejected_with_ValueError":
         return (not isinstance(exc, ValueError)), detail + (
             f" imported nodes={sorted(tr.graph.nodes)} edges={sorted(tr.graph.edges)}" if tr is not None else "")
@@ -595,6 +602,8 @@ def csv_harness(ctx, cfg):
     ctx.input("cells", {k: [x for x in v.c.flat] for k, v in sym.items()})
     ctx.input("node_features", cfg.get("features"))
     ctx.input("index", cfg.get("index"))
+    ctx.input("expect_malformed", bool(malformed(ids, [(parents[i], ids[i]) for i in range(n) if pcode[i][0] != "none"])
+                                       or cfg.get("expect_missing_required", False)))
     install_csv()
     exc = tr = None
     try:
@@ -685,6 +694,9 @@ def csv_replay(f):
     ren = csv_renumbering(ids)
     detail = f"table={ {k: list(v) for k, v in data.items()} } index={inp.get('index')} name_map={inp['name_map']} " \
              f"-> exc={exc!r}"
+    em = inp.get("expect_malformed")
+    if em is not None and em != (ob == "C12.malformed_source_rejected_with_ValueError"):
+        return False, "obligation does not apply: the source is " + ("malformed" if em else "well-formed")
     if ob == "C12.malformed_source_rejected_with_ValueError":
         return (not isinstance(exc, ValueError)), detail + (
             f" imported nodes={sorted(tr.graph.nodes)} edges={sorted(tr.graph.edges)}" if tr is not None else "")
